@@ -191,7 +191,7 @@ func (in *instance) callAdmin(r Row, c adminCall, ci int, hv []string) Event {
 	in.lease("/r2", 1)
 	body := c.body(in)
 	pre := in.observe()
-	ev := Event{Ev: "Call", Row: r, Mount: in.mount, Variant: c.variant, Kind: c.kind, Conc: ci, Method: c.method, Path: c.path,
+	ev := Event{Ev: "Call", Row: r, Mount: in.mount, Boot: in.bootKind, Variant: c.variant, Kind: c.kind, Conc: ci, Method: c.method, Path: c.path,
 		Auth: hv, Delta: []string{}, Good: c.good, AdminEp: c.ep}
 	if ev.Auth == nil {
 		ev.Auth = []string{}
